@@ -176,6 +176,23 @@ def gen_cases(ctx):
                 if rng.random() < .7:
                     cuts = sorted(set(cuts + [4, 7, 7 + len(f)] + ([7 + len(f) + 3] if rng.random() < .5 else [])))
                 cases.append(("hdrlike", [b"q", f, g], cut(stream, [c for c in cuts if 0 < c < len(stream)]), True))
+    # chunks of exactly the sizes a socket read returns when more was asked for than fits (both dispatchers read
+    # 1024 bytes at a time; other power-of-two read sizes too): a full read says nothing about what follows, frames
+    # complete at the end of such a chunk are due at once
+    for rs in (1024, 2048, 4096, 65536):
+        fams = [[rng.randbytes(rs - 3)],                                      # one frame = one full read
+                [rng.randbytes(rs // 2 - 3), rng.randbytes(rs // 2 - 3)],     # two frames end on the read boundary
+                [rng.randbytes(2 * rs - 3)],                                  # one frame = two full reads
+                [b"ab", rng.randbytes(3 * rs - 3 - 5 - 10), rng.randbytes(7)],
+                [rng.randbytes(rs + 5), rng.randbytes(rs - 5 - 6)]]           # a frame boundary inside the 2nd read
+        for frames in fams:
+            stream = b"".join(wire(f) for f in frames)
+            assert len(stream) % rs == 0
+            cases.append(("readsize", frames, cut(stream, list(range(rs, len(stream), rs))), True))
+        frames = [rng.randbytes(997), rng.randbytes(18), rng.randbytes(rs // 2), rng.randbytes(rs - rs // 2 - 6)]
+        stream = b"".join(wire(f) for f in frames)
+        cases.append(("readsize", frames, cut(stream, [1000, 1024]), True))   # ... + 24 + one full read
+        cases.append(("readsize", frames, cut(stream, [len(stream) - rs]), True))
     # random larger
     nrand = 300 if ctx.tier == "quick" else 6000
     for i in range(nrand):
